@@ -92,11 +92,16 @@ fn eq_cb(truth: bool) -> bool {
             c.leak_ok = true;
             return None;
         }
-        if c.adv && mix(c.seed, n) % 4 == 0 {
-            Some(!truth)
-        } else {
-            Some(truth)
+        if !c.adv {
+            return Some(truth);
         }
+        // a misbehaving ==: the seed selects the kind of misbehaviour (Exec.adv_answer)
+        Some(match c.seed % 4 {
+            0 => if mix(c.seed, n) % 4 == 0 { !truth } else { truth },
+            1 => true,
+            2 => false,
+            _ => if n % 2 == 0 { truth } else { !truth },
+        })
     });
     match r {
         Some(b) => b,
